@@ -231,4 +231,6 @@ PARTS = [
          doc='every list of <= 2 chains for L <= 3 over {identity, a, b} x coefficients {1,-1,2,1/2}'),
     Part('chain_lists', check_chain_list, strategy=gen_chain_list, n={'quick': 400, 'thorough': 8000}, workers={'quick': 4, 'thorough': 16}),
     Part('graph_to_mpo', check_graph_to_mpo, strategy=gen_graph_case, n={'quick': 250, 'thorough': 4000}, workers={'quick': 4, 'thorough': 16}),
+    Part('fuzz_chain_lists', None, fuzz_of='chain_lists', runs={'quick': 0, 'thorough': 30000}, workers={'quick': 0, 'thorough': 8},
+         doc='atheris campaign over the chain-list grammar, oracle inside the target'),
 ]
